@@ -19,6 +19,7 @@ type Log struct {
 	Cond   *sync.Cond
 	events []Event
 	last   time.Time
+	start  time.Time
 	Tr     int
 }
 
@@ -38,7 +39,11 @@ func (l *Log) Add(ev string, kv ...interface{}) {
 
 // AddLocked appends an event; the caller holds Mu.
 func (l *Log) AddLocked(ev string, kv ...interface{}) {
-	e := Event{"ev": ev, "tr": l.Tr}
+	if l.start.IsZero() {
+		l.start = time.Now()
+	}
+	// ts: milliseconds since the first event of this log (used only for "not earlier than" checks of time-outs, with generous slack)
+	e := Event{"ev": ev, "tr": l.Tr, "ts": int(time.Since(l.start) / time.Millisecond)}
 	for i := 0; i+1 < len(kv); i += 2 {
 		e[kv[i].(string)] = kv[i+1]
 	}
